@@ -16,6 +16,7 @@ import (
 
 	corestore "cosmossdk.io/core/store"
 	"github.com/cosmos/iavl"
+	"github.com/cosmos/iavl/fastnode"
 	idb "github.com/cosmos/iavl/db"
 	ics23 "github.com/cosmos/ics23/go"
 )
@@ -688,6 +689,30 @@ func (s *session) exec(args []string) string {
 			sb.WriteString(hex.EncodeToString(p.k) + ":" + hex.EncodeToString(p.v))
 		}
 		return "{" + sb.String() + "}"
+	case "ixdump":
+		// C07, index machine: the persisted fast index as it is on the store - the label and every entry
+		// with its "version last updated"
+		s.ensureBackend()
+		label := "none"
+		var ents []string
+		for _, p := range snapshot(s.backend) {
+			if string(p.k) == "mstorage_version" {
+				if parts := strings.Split(string(p.v), "-"); len(parts) == 2 && parts[0] == "1.1.0" {
+					label = parts[1]
+				} else if string(p.v) != "1.0.0" {
+					label = "bad:" + string(p.v)
+				}
+			}
+			if len(p.k) > 0 && p.k[0] == 'f' {
+				fn, err := fastnode.DeserializeNode(p.k[1:], p.v)
+				if err != nil {
+					ents = append(ents, enc(p.k[1:])+"=undecodable")
+					continue
+				}
+				ents = append(ents, fmt.Sprintf("%s=%s@%d", enc(fn.GetKey()), enc(fn.GetValue()), fn.GetVersionLastUpdatedAt()))
+			}
+		}
+		return "label=" + label + " idx=[" + strings.Join(ents, ",") + "]"
 	case "writes":
 		var sb strings.Builder
 		for i, w := range s.rec.log {
